@@ -157,6 +157,9 @@ func init() {
 	reg(v("Choose"), func(ex *Exec, a []Value, _ *Frame) Value {
 		name := ex.strArg(a[0])
 		n := ex.mustInt(a[1], "Choose arity")
+		if k, ok := ex.choices[name]; ok && k < n {
+			return Int{ex.tf.I64(int64(k))} // a named choice is made once per path
+		}
 		k := ex.choose(n, name)
 		ex.choices[name] = k
 		return Int{ex.tf.I64(int64(k))}
@@ -164,6 +167,9 @@ func init() {
 	reg(v("Len"), func(ex *Exec, a []Value, _ *Frame) Value {
 		name := ex.strArg(a[0])
 		lo, hi := ex.mustInt(a[1], "Len lo"), ex.mustInt(a[2], "Len hi")
+		if k, ok := ex.choices[name]; ok && k >= lo && k <= hi {
+			return Int{ex.tf.I64(int64(k))}
+		}
 		k := lo + ex.choose(hi-lo+1, name)
 		ex.choices[name] = k
 		return Int{ex.tf.I64(int64(k))}
@@ -744,6 +750,27 @@ func (ex *Exec) sprintf(format Str, args Slice) Str {
 				return s
 			}
 		}
+		// all arguments have concrete text and only plain verbs occur: evaluate for real
+		if plainVerbs(fs) {
+			goArgs := make([]interface{}, len(as))
+			allOK := true
+			for i, a := range as {
+				t, ok := ex.textOf(a)
+				if !ok {
+					allOK = false
+					break
+				}
+				cs, ok := concreteString(t)
+				if !ok {
+					allOK = false
+					break
+				}
+				goArgs[i] = cs
+			}
+			if allOK {
+				return ex.strConst(fmt.Sprintf(strings.NewReplacer("%d", "%s", "%v", "%s").Replace(fs), goArgs...))
+			}
+		}
 		if fs == "%T" && len(as) == 1 {
 			if iv, ok := as[0].(Iface); ok && iv.T != nil {
 				return ex.strConst(types.TypeString(iv.T, func(p *types.Package) string { return p.Name() }))
@@ -751,6 +778,24 @@ func (ex *Exec) sprintf(format Str, args Slice) Str {
 		}
 	}
 	return Str{Opq: ex.newOpq("fmt:"+fs, as)}
+}
+
+func plainVerbs(f string) bool {
+	for i := 0; i < len(f); i++ {
+		if f[i] != '%' {
+			continue
+		}
+		if i+1 >= len(f) {
+			return false
+		}
+		switch f[i+1] {
+		case 's', 'd', 'v':
+			i++
+		default:
+			return false
+		}
+	}
+	return true
 }
 
 func (ex *Exec) mkError(msg Str) Value {
